@@ -1,4 +1,5 @@
 import MetadorModel.Model.Merge
+import MetadorModel.Proofs.Listing
 /-!
 # C10 — Patches built on a stub apply to the real record with the same result
 
@@ -35,5 +36,67 @@ theorem stub_patch_same_block (ubs : List UB) (h fresh : Nat) (last s : UB)
 
 example : stubUB [⟨7, 0, 100, none, some 1⟩, ⟨7, 1, 101, some 100, some 2⟩] 9 = some ⟨7, 1, 101, none, some 9⟩ := by
   decide
+
+/-! ## tree level: the stub has the skeleton of the real record and none of its data -/
+section tree
+open MetadorModel.Tree MetadorModel.Overlay MetadorModel.Single MetadorModel.Listing
+variable {V : Type}
+
+/-- same hypothesis as in C05: the view of the real record is a tree listed parents-first -/
+def ViewReplayable (r : Rec V) : Prop := Replayable (Overlay.listing r)
+
+/-- kind of a stub node: groups stay groups, every dataset holds the `empty` value -/
+def emptyKind (empty : V) : NKind V → NKind V
+  | .group => .group
+  | .data _ => .data empty
+
+/-- **the stub exposes exactly the paths, node kinds and attribute names of the real record and
+none of its data**: at every path below the root the stub shows a node iff the real record
+does, of the same kind (datasets hold `empty`), with an attribute `k` iff the real node has
+one (its value is `empty`). -/
+theorem stub_skeleton (empty : V) (r s : Rec V) (h : ViewReplayable r)
+    (hs : stubCont empty r = .ok s) (q : Path) (hq : q ≠ []) :
+    viewKind s q = (viewKind r q).map (emptyKind empty) ∧
+    ∀ k, viewAttr s q k = (viewAttr r q k).map (fun _ => empty) := by
+  have hrep := replayable_stub empty (Overlay.listing r) h
+  have hkind := materialise_kind _ hrep s hs q hq
+  rw [nonRoot_stub, aget_map_val, aget_nonRoot _ q hq, aget_listing r q hq] at hkind
+  refine ⟨?_, fun k => ?_⟩
+  · rw [hkind]
+    cases hv : viewKind r q with
+    | none => rfl
+    | some kd => cases kd <;> rfl
+  · have hnd : ∀ e ∈ stubListing empty (Overlay.listing r), (e.2.2.map (·.1)).Nodup := by
+      intro e he
+      simp only [stubListing_eq, List.mem_map] at he
+      obtain ⟨e0, he0, rfl⟩ := he
+      have := listing_attrs_nodup r e0 he0
+      simpa [emptied, List.map_map, Function.comp_def] using this
+    have hattr := materialise_attr _ hrep s hs hnd q hq k
+    rw [nonRoot_stub, aget_map_val, aget_nonRoot _ q hq, aget_listing r q hq] at hattr
+    rw [hattr]
+    cases hv : viewKind r q with
+    | none => simp [viewAttr_none_of_kind_none r q hq k hv]
+    | some kd =>
+      simp only [Option.map_some, Option.bind_some, emptied]
+      rw [aget_map_val (fun _ => empty) (attrsList r q) k, aget_attrsList]
+
+/-- the stub is a single container (it can only serve as a base for patches) -/
+theorem stub_single (empty : V) (r s : Rec V) (h : ViewReplayable r) (hs : stubCont empty r = .ok s) :
+    s.length = 1 := by
+  obtain ⟨heq, _⟩ := materialise_eq _ (replayable_stub empty (Overlay.listing r) h)
+  rw [stubCont, heq] at hs
+  cases hs; rfl
+
+/-- non-vacuity: a three-container record (set, attributes incl. a root attribute, delete,
+re-create in later patches) satisfies the hypothesis of the tree-level theorems -/
+def exRec : Rec Nat :=
+  (W.run Rec.init [.set ["a", "x"] 1, .sattr ["a"] "k" 5, .patch, .del ["a", "x"], .grp ["b"],
+    .sattr [] "r" 9, .patch, .set ["a", "y"] 2]).1
+
+example : exRec.length = 3 ∧ ViewReplayable exRec :=
+  ⟨by decide +kernel, replayableB_sound _ (by decide +kernel)⟩
+
+end tree
 
 end MetadorModel.C10
